@@ -247,10 +247,20 @@ class _FlowChecker:
             return 'ACCV{' + '; '.join(sorted(parts)) + '}'
         nz = Normalizer(model, f, cfg, param_map=pm, name_hook=hook)
         r.analysed.add(f.qualname)
+        ret_forms = ' '.join(nz.expr(n.ast.value, n) for n in cfg.live_nodes()
+                             if n.kind == 'return' and n.ast is not None and n.ast.value is not None)
         for n in cfg.live_nodes():
-            # recurse into helpers with the provenance of their arguments
+            # recurse into the helpers whose result is (part of) the returned value, with the provenance of their arguments
             for root in node_exprs(n):
                 for sub in walk_no_nested(root):
+                    hname = None
+                    if isinstance(sub, ast.Call) and isinstance(sub.func, ast.Attribute):
+                        hname = sub.func.attr
+                    elif isinstance(sub, ast.Call) and isinstance(sub.func, ast.Name) and sub.func.id == 'map' and sub.args \
+                            and isinstance(sub.args[0], ast.Attribute):
+                        hname = sub.args[0].attr
+                    if hname is None or f"self.{hname}(" not in ret_forms:
+                        continue
                     callee = None
                     args: t.List[ast.AST] = []
                     if isinstance(sub, ast.Call) and isinstance(sub.func, ast.Attribute) and isinstance(sub.func.value, ast.Name) \
